@@ -56,7 +56,9 @@ def template(draw):
         else:
             tr = draw(st.sampled_from([None, ["done"], ["loop", draw(st.integers(2, 9))]]))
         acts_done = draw(st.booleans()) if i + 1 == nfr else False
-        body.append({"acts": acts, "tr": tr})
+        # an entry guard on clone-relative data: `let me if cnt of framer >= v` (a benter act, cloned with the frame)
+        guard = draw(st.sampled_from([None, None, None, 1, 2, 4, 7])) if i > 0 else None
+        body.append({"acts": acts, "tr": tr, "guard": guard})
     nested = draw(st.sampled_from([None, {"tag": "inner", "frame": draw(st.integers(0, nfr - 1)),
                                           "via": draw(st.sampled_from([None, "me.y", "y", "main"])),
                                           "twin": draw(st.sampled_from([None, "innertwo", "mine"]))}]))
@@ -128,6 +130,10 @@ def moot_lines(name, body, nested, sched, use_m=False, hier=None):
         L += ["recur", "inc top of framer with 1"]
     for i, fr in enumerate(body):
         L.append("frame %s%d" % (name[0].upper(), i) + (" in %sT" % name[0].upper() if hier else ""))
+        if fr.get("guard") is not None and not hier:
+            # (flat bodies only: there the guarded frame is never part of the first outline, whose entry checks run
+            # before `cnt` is initialised)
+            L.append("let me if cnt of framer >= %d" % fr["guard"])
         if i == 0 and not hier:
             L.append("put 0 into cnt of framer")   # relative shares are initialised before they are read
             if use_m:
